@@ -32,7 +32,7 @@ theorem of_mem_liveNames {s : State} {l : List Name} {n : Name} {d : DymName} (h
 /-- **reverse resolution is complete for the stored address records**: every record
     `path.name@chain -> value` of a live name is found when `value` is reverse-resolved on `chain` -/
 theorem revByConfig_complete {s : State} (hI : IdxOK s.ns) {n : Name} {d : DymName} {c : Config}
-    (hl : getNameLive s n = some d) (hc : c ∈ d.configs) : (c.path, n) ∈ revByConfig s c.value c.chain := by
+    (hl : getNameLive s n = some d) (hc : c ∈ d.configs) : (c.path, n) ∈ revByConfig s c.value (cfgText c.chain) := by
   have hd : getName s n = some d := by
     unfold getNameLive at hl
     cases hg : getName s n with
@@ -53,10 +53,10 @@ theorem revByConfig_complete {s : State} (hI : IdxOK s.ns) {n : Name} {d : DymNa
 
 theorem reverse_complete {s : State} (hI : IdxOK s.ns) {n : Name} {d : DymName} {c : Config}
     (hl : getNameLive s n = some d) (hc : c ∈ d.configs) :
-    (c.path, n, prettyChain s c.chain) ∈ reverse s c.value c.chain := by
+    (c.path, n, prettyChain s (cfgText c.chain)) ∈ reverse s c.value (cfgText c.chain) := by
   have h := revByConfig_complete hI hl hc
-  have hne : (revByConfig s c.value c.chain).isEmpty = false := by
-    cases hx : revByConfig s c.value c.chain with
+  have hne : (revByConfig s c.value (cfgText c.chain)).isEmpty = false := by
+    cases hx : revByConfig s c.value (cfgText c.chain) with
     | nil => rw [hx] at h; cases h
     | cons a l => rfl
   unfold reverse reverseRaw
@@ -98,7 +98,7 @@ theorem findConfig_none_of_no_default {d : DymName} (h : d.configs.any Config.is
 /-- a candidate of the configured-address stage comes from a record of a live name -/
 theorem of_mem_revByConfig {s : State} {addr : Addr} {wc : Chain} {p : Path} {n : Name}
     (h : (p, n) ∈ revByConfig s addr wc) :
-    ∃ d c, getNameLive s n = some d ∧ c ∈ d.revConfigs ∧ c.value = addr ∧ c.chain = wc ∧ c.path = p := by
+    ∃ d c, getNameLive s n = some d ∧ c ∈ d.revConfigs ∧ c.value = addr ∧ cfgText c.chain = wc ∧ c.path = p := by
   unfold revByConfig at h
   rw [List.mem_flatMap] at h
   obtain ⟨⟨m, d⟩, hl, hm⟩ := h
@@ -106,14 +106,31 @@ theorem of_mem_revByConfig {s : State} {addr : Addr} {wc : Chain} {p : Path} {n 
   obtain ⟨c, ⟨hc, hv, hch⟩, hp, rfl⟩ := hm
   exact ⟨d, c, (of_mem_liveNames hl).2, hc, hv, hch, hp⟩
 
+/-- no address record of the name is stored under the literal host chain-id (`hostLit`) -/
+def NoLitName (s : State) (n : Name) : Prop :=
+  ∀ d, getNameLive s n = some d → ∀ c ∈ d.configs, c.chain ≠ hostLit
+
 /-- **candidates found through a stored record resolve back to the queried address** (given that
-    the pretty handle of the working chain translates back to it) -/
+    the pretty handle of the working chain translates back to it) — *provided* the record is not one
+    stored under the literal host chain-id (`hNL`), which only a chain-id migration onto the host
+    chain-id can create: forward resolution never looks such a record up -/
 theorem revByConfig_sound {s : State} {addr : Addr} {wc : Chain} {p : Path} {n : Name}
     (hU : ∀ d, getNameLive s n = some d → CfgUniq d)
+    (hNL : NoLitName s n)
     (hH : handleChain s (prettyChain s wc) = some wc)
     (hP : ∀ c, prettyChain s wc = .chain c → c = wc)
     (h : (p, n) ∈ revByConfig s addr wc) : resolve s p n (prettyChain s wc) = some addr := by
-  obtain ⟨d, c, hl, hc, rfl, rfl, rfl⟩ := of_mem_revByConfig h
+  obtain ⟨d, c, hl, hc, rfl, hch, rfl⟩ := of_mem_revByConfig h
+  have hcl : c.chain ≠ hostLit := by
+    unfold DymName.revConfigs at hc
+    split at hc
+    · exact hNL d hl c hc
+    · rcases List.mem_append.mp hc with hc | hc
+      · exact hNL d hl c hc
+      · simp only [List.mem_singleton] at hc
+        subst hc; simp [hostLit]
+  have hcw : c.chain = wc := by rw [← hch]; simp [cfgText, hcl]
+  subst hcw
   have hu := hU d hl
   -- the record found at (chain, path) of c is c's value, or c is the implicit default record
   have key : findConfig d c.chain c.path = some c.value ∨
